@@ -205,7 +205,7 @@ Qed.
 (* ---------------- the build tag ---------------- *)
 Definition build_txt (b : N * str) : str := dec (fst b) ++ snd b.
 Definition build_ok (b : option (N * str)) : Prop :=
-  match b with None => True | Some (_, suf) => nochar dash suf = true /\ nochar 10 suf = true /\ hd_is is_d suf = false end.
+  match b with None => True | Some (_, suf) => nochar dash suf = true /\ hd_is is_d suf = false end.
 Lemma digit_is_d c : is_digit c = true -> is_d c = true /\ to_ascii_digit c = c.
 Proof.
   intros H. unfold is_d, to_ascii_digit. rewrite H. split; [reflexivity|]. apply digit_range in H.
@@ -216,16 +216,16 @@ Proof.
   induction s as [|c t IH]; [reflexivity|]. rewrite nochar_cons. intros H. apply andb_prop in H as [H1 H2]. apply negb_true_iff in H1.
   cbn [take_line]. now rewrite H1, IH.
 Qed.
-Lemma build_of_txt k suf : nochar 10 suf = true -> hd_is is_d suf = false -> build_of (build_txt (k, suf)) = Some (k, suf).
+Lemma build_of_txt k suf : hd_is is_d suf = false -> build_of (build_txt (k, suf)) = Some (k, suf).
 Proof.
-  intros H1 H2. unfold build_of, build_txt. cbn [fst snd].
+  intros H2. unfold build_of, build_txt. cbn [fst snd].
   assert (D : forallb is_d (dec k) = true /\ map to_ascii_digit (dec k) = dec k).
   { pose proof (dec_digits k) as F. induction (dec k) as [|c l IH]; [split; reflexivity|]. cbn [forallb map] in *. apply andb_prop in F as [Fc Fl].
     destruct (digit_is_d c Fc) as [A B]. destruct (IH Fl) as [C E]. now rewrite A, B, C, E. }
   destruct D as [D1 D2]. rewrite (span_complete is_d (dec k) suf D1 H2).
   pose proof (dec_nonnil k) as NN.
   assert (M : forall (x y : option (N * list N)), match dec k with [] => x | _ :: _ => y end = y) by (intros; destruct (dec k); congruence).
-  rewrite M. unfold int_of, num. now rewrite D2, undec_dec, take_line_all.
+  rewrite M. unfold int_of, num. now rewrite D2, undec_dec.
 Qed.
 Lemma digits_nodash s : forallb is_digit s = true -> nochar dash s = true.
 Proof.
@@ -250,7 +250,7 @@ Proof.
   intros [NB ND] VD VE B P1 P2 P3. destruct (parts_join _ P1) as [J1 S1], (parts_join _ P2) as [J2 S2], (parts_join _ P3) as [J3 S3].
   unfold wheel_name. rewrite parse_wheel_encode.
   - unfold wheel_spec. cbn [w_name w_ver w_build w_py w_abi w_plat]. rewrite NB, VE, S1, S2, S3.
-    destruct b as [[k suf]|]; cbn [option_map]; [|reflexivity]. destruct B as (_ & B2 & B3). now rewrite build_of_txt.
+    destruct b as [[k suf]|]; cbn [option_map]; [|reflexivity]. destruct B as (_ & B3). now rewrite build_of_txt.
   - repeat split; cbn [w_name w_ver w_build w_py w_abi w_plat]; auto.
     destruct b as [[k suf]|]; cbn [option_map]; auto. destruct B as (B1 & _). unfold build_txt. cbn [fst snd].
     now rewrite nochar_app, digits_nodash, B1 by apply dec_digits.
